@@ -229,3 +229,90 @@ Example ex_alias_vs_copy :
   out (snd (eval_items [] 20 [] empty_state body1 None)) = [5%Z] /\
   out (snd (eval_items [] 20 [] empty_state body2 None)) = [1%Z].
 Proof. split; vm_compute; reflexivity. Qed.
+
+(* ---- for-in loops ------------------------------------------------------------------------ *)
+From NV Require Import Src.EvalForIn.
+
+(* `for (x in [a .. b]) body`: b is evaluated first, then a, each exactly once; afterwards the
+   loop depends on the two VALUES only (assignments to the variables of a and b in the body do
+   not change the iterations); direction fixed at entry: ascending iff a < b *)
+Theorem forin_range_bounds_once : forall genv k e st x a b body cb st1 ca st2 za zb,
+  eval genv k e st b = (ROk cb, st1) ->
+  eval genv k e st1 a = (ROk ca, st2) ->
+  get_cell st2 ca = Some (CInt za) -> get_cell st2 cb = Some (CInt zb) ->
+  eval genv (S k) e st (EForInRange x a b body) =
+  forin_loop (fun c s => eval genv k ((x, c) :: e) s body) k (range_src za zb) st2.
+Proof. exact EvalForIn.forin_range_bounds_once. Qed.
+Print Assumptions forin_range_bounds_once.
+
+Theorem forin_range_bound_raises : forall genv k e st x a b body r st1, (forall c, r <> ROk c) ->
+  eval genv k e st b = (r, st1) ->
+  eval genv (S k) e st (EForInRange x a b body) = (r, st1).
+Proof. exact EvalForIn.forin_range_bound_raises. Qed.
+Print Assumptions forin_range_bound_raises.
+
+(* a range loop that runs to its end executes the body |b - a| + 1 times with the loop variable
+   holding a, a+-1, .., b (both bounds inclusive; a = b: once) -- unless the last value is the
+   extreme int of the direction, where the counter wraps around and the loop never ends *)
+Theorem forin_range_values : forall ev n za zb st c st',
+  int32 za -> int32 zb ->
+  (za < zb -> zb < 2147483647)%Z -> (zb <= za -> -2147483648 < zb)%Z ->
+  forin_loop ev n (range_src za zb) st = (ROk c, st') ->
+  forin_values ev n (range_src za zb) st = map (fun z => Some (CInt z)) (range_values za zb) /\
+  length (forin_cells ev n (range_src za zb) st) = Z.to_nat (Z.abs (zb - za) + 1).
+Proof. exact EvalForIn.forin_range_values. Qed.
+Print Assumptions forin_range_values.
+
+(* one iteration: fresh cell with the current value, the body, then the next value *)
+Theorem forin_range_iteration : forall ev n z zb st, (z <= zb)%Z ->
+  forin_loop ev (S n) (LUp z zb) st =
+  match ev (length (cells st)) (with_new_cell st (CInt z)) with
+  | (ROk _, st2) => forin_loop ev n (LUp (wrap32 (z + 1)) zb) st2
+  | r => r
+  end.
+Proof. exact EvalForIn.forin_range_iteration. Qed.
+Print Assumptions forin_range_iteration.
+
+Theorem forin_range_iteration_down : forall ev n z zb st, (zb <= z)%Z ->
+  forin_loop ev (S n) (LDown z zb) st =
+  match ev (length (cells st)) (with_new_cell st (CInt z)) with
+  | (ROk _, st2) => forin_loop ev n (LDown (wrap32 (z - 1)) zb) st2
+  | r => r
+  end.
+Proof. exact EvalForIn.forin_range_iteration_down. Qed.
+Print Assumptions forin_range_iteration_down.
+
+(* the value of a finished loop is a fresh int 0; a fault in the body leaves the loop at once *)
+Theorem forin_done_value : forall ev n s st, forin_step st s = LsDone ->
+  forin_loop ev (S n) s st = (ROk (length (cells st)), with_new_cell st (CInt 0)).
+Proof. exact EvalForIn.forin_done_value. Qed.
+Print Assumptions forin_done_value.
+
+Theorem forin_body_raises : forall ev n s st c st1 s' r st2, (forall c', r <> ROk c') ->
+  forin_step st s = LsBind c st1 s' -> ev c st1 = (r, st2) ->
+  forin_loop ev (S n) s st = (r, st2).
+Proof. exact EvalForIn.forin_body_raises. Qed.
+Print Assumptions forin_body_raises.
+
+(* `for (x in arr) body`: the iterable is evaluated once, to a CELL; every iteration reads the
+   array reference in that cell again (see forin_arr_step_shares_cell in Properties_C08.v) *)
+Theorem forin_arr_iterable_once : forall genv k e st x arr body ca st1,
+  eval genv k e st arr = (ROk ca, st1) ->
+  eval genv (S k) e st (EForInArr x arr body) =
+  forin_loop (fun c s => eval genv k ((x, c) :: e) s body) k (LArr ca 0) st1.
+Proof. exact EvalForIn.forin_arr_iterable_once. Qed.
+Print Assumptions forin_arr_iterable_once.
+
+(* for (i in [3 .. 1]) print(i)  prints 3 2 1;  [2 .. 2] runs once;  the loop yields 0 *)
+Example ex_forin_down :
+  out (snd (eval [] 20 [] empty_state (EForInRange 1%N (EInt 3) (EInt 1) (EPrint (EVar 1%N))))) = [1; 2; 3]%Z /\
+  out (snd (eval [] 20 [] empty_state (EForInRange 1%N (EInt 2) (EInt 2) (EPrint (EVar 1%N))))) = [2]%Z /\
+  out (snd (eval [] 20 [] empty_state (EPrint (EForInRange 1%N (EInt 1) (EInt 2) (EVar 1%N))))) = [0]%Z.
+Proof. repeat split; vm_compute; reflexivity. Qed.
+(* for (x in a) x = x + 1  writes the elements;  a = b in the body redirects the loop *)
+Example ex_forin_arr_shares :
+  let a := EArrLit [EInt 10; EInt 20] TInt in
+  out (snd (eval_items [] 30 [] empty_state
+    [IVar 1%N a; IExpr (EForInArr 2%N (EVar 1%N) (EAssign (EVar 2%N) (EBin Add (EVar 2%N) (EInt 1))));
+     IExpr (EPrint (EIndex (EVar 1%N) (EInt 0))); IExpr (EPrint (EIndex (EVar 1%N) (EInt 1)))] None)) = [21; 11]%Z.
+Proof. vm_compute. reflexivity. Qed.
